@@ -2,6 +2,7 @@
 //! Runs every scenario of the input file against the real crates and writes one trace per
 //! scenario. Nothing is written to stdout (JuraV1::tick prints its book there).
 mod comp_cost;
+mod comp_exch;
 mod comp_sched;
 mod util;
 
@@ -24,6 +25,7 @@ fn main() {
         let r = util::catch(|| match comp {
             "cost" => comp_cost::run(sc),
             "sched" => comp_sched::run(sc),
+            "exch" => comp_exch::run(sc),
             _ => panic!("unknown component {comp}"),
         });
         out.push(match r {
